@@ -26,6 +26,7 @@ import (
 type One struct {
 	Err      string
 	ErrText  string
+	ErrAt    int
 	Body     string // Release.Manifest without CRD chunks
 	Crds     []string
 	CrdPart  string // the CRD chunks, verbatim
@@ -64,7 +65,8 @@ func classifyErr(err error) string {
 		return "schema"
 	case strings.Contains(s, "parse error"):
 		return "parse"
-	case strings.Contains(s, "error calling include"), strings.Contains(s, "no template"), strings.Contains(s, "error calling tpl"):
+	case strings.Contains(s, "error calling include"), strings.Contains(s, "no template"), strings.Contains(s, "error calling tpl"),
+		strings.Contains(s, "execution error"):
 		return "exec"
 	}
 	return "other"
@@ -305,9 +307,37 @@ func (m *Materialised) RenderOnce(mode string, includeCRDs bool, withEngine bool
 		return o
 	}
 	rel, err := newInstall(m.Case, includeCRDs).Run(ch, map[string]interface{}{})
+	o.fill(m, rel, err)
+	if withEngine {
+		ch2, err := m.Load(mode, r)
+		if err == nil {
+			o.Engine, o.EngKeys = engineRender(ch2, m.Case)
+		}
+	}
+	return o
+}
+
+// errFile finds the template file an error message blames.
+func errFile(text string) int {
+	best, at := 0, len(text)+1
+	for i, n := range PathName {
+		if k := strings.Index(text, n); k >= 0 && k < at {
+			best, at = i+1, k
+		}
+	}
+	return best
+}
+
+// Triple is the comparable outcome of a dry-run install.
+func (o One) Triple() string {
+	return o.Err + "|" + fmt.Sprint(o.ErrAt) + "|" + dig(o.Body) + "|" + dig(o.Hooks) + "|" + dig(o.Notes)
+}
+
+func (o *One) fill(m *Materialised, rel *release.Release, err error) {
 	o.Err = classifyErr(err)
 	if err != nil {
 		o.ErrText = err.Error()
+		o.ErrAt = errFile(o.ErrText)
 	}
 	if rel != nil && os.Getenv("VERIF_DEBUG") != "" {
 		fmt.Fprintf(os.Stderr, "MANIFEST %q\nNOTES %q\nERR %v\n", rel.Manifest, rel.Info.Notes, err)
@@ -322,13 +352,6 @@ func (m *Materialised) RenderOnce(mode string, includeCRDs bool, withEngine bool
 	} else if rel != nil {
 		o.Body = rel.Manifest
 	}
-	if withEngine {
-		ch2, err := m.Load(mode, r)
-		if err == nil {
-			o.Engine, o.EngKeys = engineRender(ch2, m.Case)
-		}
-	}
-	return o
 }
 
 func engineRender(ch *chart.Chart, c Case) (string, []int) {
@@ -376,6 +399,8 @@ type Acc struct {
 	crd      map[string]bool
 	eng      map[string]bool
 	errs     map[string]bool
+	errTexts map[string]bool
+	reuseDiff, routeDiff string
 	crdsSeen map[string][]string
 	bodyIncl map[string]bool
 	Schema   []string
@@ -384,7 +409,7 @@ type Acc struct {
 
 func NewAcc(cl CaseLine) *Acc {
 	return &Acc{Line: cl, body: map[string]bool{}, hooks: map[string]bool{}, notes: map[string]bool{}, crd: map[string]bool{},
-		eng: map[string]bool{}, errs: map[string]bool{}, crdsSeen: map[string][]string{}, bodyIncl: map[string]bool{}}
+		eng: map[string]bool{}, errs: map[string]bool{}, errTexts: map[string]bool{}, crdsSeen: map[string][]string{}, bodyIncl: map[string]bool{}}
 }
 
 func (a *Acc) AddDigests(d Digests) {
@@ -415,6 +440,9 @@ func (a *Acc) AddDigests(d Digests) {
 
 func (a *Acc) Add(o One, incl bool) {
 	a.mu.Lock()
+	if o.ErrText != "" {
+		a.errTexts[canonErr(o.ErrText)] = true
+	}
 	if a.First == nil && !incl {
 		oo := o
 		a.First = &oo
@@ -437,11 +465,12 @@ func (a *Acc) Result(crdsFirst []string) ObsLine {
 	a.mu.Lock()
 	defer a.mu.Unlock()
 	o := Obs{Runs: a.Runs, DManifest: len(a.body), DHooks: len(a.hooks), DNotes: len(a.notes), DCrds: len(a.crd),
-		DEngine: len(a.eng), DErr: len(a.errs), Manifest: []ManEntry{}, Hooks: []HookEntry{}, Crds: []string{}, Engine: []int{},
+		DEngine: len(a.eng), DErr: len(a.errs), DErrText: len(a.errTexts), ReuseSame: a.reuseDiff == "", RouteSame: a.routeDiff == "",
+		ReuseDiff: a.reuseDiff, RouteDiff: a.routeDiff, Manifest: []ManEntry{}, Hooks: []HookEntry{}, Crds: []string{}, Engine: []int{},
 		NotesSeen: []string{}, CrdsSeen: [][]string{}, Schema: a.Schema, Uninst: a.Uninst, Err: "none"}
 	if a.First != nil {
 		f := a.First
-		o.Err, o.ErrText, o.Notes = f.Err, f.ErrText, f.Notes
+		o.Err, o.ErrText, o.Notes, o.ErrAt = f.Err, f.ErrText, f.Notes, f.ErrAt
 		if len(o.ErrText) > 300 {
 			o.ErrText = o.ErrText[:300]
 		}
@@ -563,7 +592,9 @@ func ObserveInProcess(a *Acc, m *Materialised, pl Plan, seed int64) (crdsFirst [
 			}(g)
 		}
 		// ... and concurrent engine.Render calls on ONE shared chart object
-		if pl.Engine {
+		// (not where a template mutates values: if a defect made renders share them, the data race would
+		// kill the harness instead of yielding a verdict; ObserveReuse covers those cases sequentially)
+		if pl.Engine && !m.Case.uses("MUT") {
 			if ch, err := m.Load("files", r); err == nil {
 				vals := map[string]interface{}{}
 				if chartutil.ProcessDependencies(ch, vals) == nil {
@@ -604,4 +635,101 @@ func ObserveInProcess(a *Acc, m *Materialised, pl Plan, seed int64) (crdsFirst [
 		wg.Wait()
 	}
 	return crdsFirst
+}
+
+var tmpDirRe = regexp.MustCompile(`/[^ "]*hv_render_[0-9]+`)
+
+// canonErr removes the per-process temporary directory from an error message.
+func canonErr(s string) string { return tmpDirRe.ReplaceAllString(s, "<tmp>") }
+
+func (a *Acc) noteDiff(which *string, what string, got, want string) {
+	a.mu.Lock()
+	if *which == "" {
+		*which = what + ": " + got + " instead of " + want
+	}
+	a.Runs++
+	a.mu.Unlock()
+}
+
+func (c Case) uses(g string) bool {
+	for _, f := range c.Files {
+		for _, d := range f.Docs {
+			if d.G == g {
+				return true
+			}
+		}
+	}
+	return false
+}
+
+// ObserveReuse renders ONE loaded chart object again and again (what an SDK user, or install followed by upgrade,
+// does): n dry-run installs one after the other, then m concurrent engine.Render calls, all on the same
+// *chart.Chart. Every one must equal the first render of a freshly loaded chart.
+func ObserveReuse(a *Acc, m *Materialised, n, conc int, seed int64) {
+	a.mu.Lock()
+	first := a.First
+	a.mu.Unlock()
+	if first == nil || n <= 0 {
+		return
+	}
+	r := rngFor(seed, "reuse:"+a.Line.ID)
+	ch, err := m.Load("files", r)
+	if err != nil {
+		return
+	}
+	want := first.Triple()
+	for k := 0; k < n; k++ {
+		var o One
+		rel, err := newInstall(m.Case, false).Run(ch, map[string]interface{}{})
+		o.fill(m, rel, err)
+		if got := o.Triple(); got != want {
+			a.noteDiff(&a.reuseDiff, fmt.Sprintf("render %d of the same chart object", k+2), got, want)
+		} else {
+			a.mu.Lock()
+			a.Runs++
+			a.mu.Unlock()
+		}
+	}
+	// concurrent engine.Render on the same object (not where a template mutates values that a defect could
+	// share between renders: a data race there would kill the harness instead of yielding a verdict)
+	if conc > 0 && first.Engine != "" && !m.Case.uses("MUT") {
+		vals := map[string]interface{}{}
+		if chartutil.ProcessDependencies(ch, vals) != nil {
+			return
+		}
+		var wg sync.WaitGroup
+		for g := 0; g < conc; g++ {
+			wg.Add(1)
+			go func() {
+				defer wg.Done()
+				opts := chartutil.ReleaseOptions{Name: "rel", Namespace: "ns", Revision: 1, IsInstall: true}
+				rv, err := chartutil.ToRenderValues(ch, vals, opts, chartutil.DefaultCapabilities.Copy())
+				if err != nil {
+					return
+				}
+				out, err := engine.Engine{EnableDNS: m.Case.DNS}.Render(ch, rv)
+				s := canonEngine(out, err)
+				if s != first.Engine {
+					a.noteDiff(&a.reuseDiff, "concurrent engine.Render on the same chart object", dig(s), dig(first.Engine))
+				}
+			}()
+		}
+		wg.Wait()
+	}
+}
+
+func canonEngine(out map[string]string, err error) string {
+	if err != nil {
+		return "err:" + classifyErr(err)
+	}
+	keys := make([]string, 0, len(out))
+	for k := range out {
+		keys = append(keys, k)
+	}
+	sort.Strings(keys)
+	var sb strings.Builder
+	for _, k := range keys {
+		fmt.Fprintf(&sb, "%q=%q;", k, out[k])
+	}
+	return sb.String()
 }
